@@ -28,6 +28,7 @@ import MagpyVerif.Lemmas.CuboidSplit
 import MagpyVerif.Lemmas.MeshUnique
 import MagpyVerif.Lemmas.TrimeshGlue
 import MagpyVerif.Lemmas.TriangleSplit
+import MagpyVerif.Lemmas.SolidAngle
 namespace MagpyVerif.C13
 open MagpyVerif MagpyVerif.Kern
 
@@ -626,12 +627,13 @@ namespace MagpyVerif.C13
 open MagpyVerif MagpyVerif.Kern
 
 /- FULL (`triangle_split_additive`): for `m = a + τ (b − a)`, `0 < τ < 1`, and every observer off the line `a b` and outside the
-`on_edge` tolerance of the four edges involved, `triangleB a m c + triangleB m b c = triangleB a b c`.  Proved below EXCEPT for the
-solid-angle terms: that the two Van Oosterom–Strackee values `2·atan2(N, D)` (with the code's clamp `|·| > 6.2831853 ↦ 0`) of the
-pieces add up to that of the whole is the named hypothesis `SolidAngleAdditive`.  It holds off the plane of the triangle (three
-signed solid angles of one sign, each below 2π) and is proved here only in the sector of the plane where all of them vanish
-(`solid_angle_additive_coplanar`); in general it needs `arg z₁ + arg z₂ = arg (z₁ z₂)` for `z = D + iN` together with the
-factorisation `z(a,m,c) · z(m,b,c) = k · z(a,b,c)`, `k > 0` — not done. -/
+`on_edge` tolerance of the four edges involved, `triangleB a m c + triangleB m b c = triangleB a b c`.  Proved in this section EXCEPT
+for the solid-angle terms: that the two Van Oosterom–Strackee values `2·atan2(N, D)` (with the code's clamp `|·| > 6.2831853 ↦ 0`) of
+the pieces add up to that of the whole is the named hypothesis `SolidAngleAdditive`.  The NEXT section discharges it for every
+observer off the plane of the triangle at which the whole is not clamped (`solid_angle_additive`, `triangle_split_additive`) and shows
+that it is FALSE off the plane when the whole is clamped (`solid_angle_additive_iff`): the FULL statement is not true of the code.
+In the plane of the triangle it is proved only in the sector where all three values vanish (`solid_angle_additive_coplanar`) and
+modulo 4π off the closed segments (`solid_angle_additive_mod_2pi`). -/
 /-- C13 (Triangle, everything but the solid angle): the normal of both pieces is the normal of the whole, the edge integral along
 `a b` is additive over the subdivision (`τ·I(a→m) + (1−τ)·I(m→b) = I(a→b)`: every branch of the cancellation-free form is
 `log(g(end)/g(start))/l`), the new edge `m c` is run once in each direction and cancels -/
@@ -677,5 +679,172 @@ example (pol : V3 ℝ) :
   · simp only [TriEdgeOnV, triEdgeOn, V3.dot, V3.cross, V3.sub_x, V3.sub_y, V3.sub_z, V3.add_x, V3.add_y, V3.add_z, vs]; norm_num
   · simp only [TriEdgeOnV, triEdgeOn, V3.dot, V3.cross, V3.sub_x, V3.sub_y, V3.sub_z, V3.add_x, V3.add_y, V3.add_z, vs]; norm_num
   · apply solid_angle_additive_coplanar <;> simp [V3.dot, V3.cross, vs] <;> norm_num
+
+end MagpyVerif.C13
+
+/-! ### The solid angle of a Triangle cut through a point of an edge (Lemmas/SolidAngle.lean)
+
+`solid_angle` returns `Ω = 2·arg(D + iN)` (Van Oosterom–Strackee), replaced by 0 when `|Ω| > 6.2831853`.  For the cut point
+`m = a + τ (b − a)`: `N(a,m,c) = τ N(a,b,c)`, `N(m,b,c) = (1−τ) N(a,b,c)` and `z(a,m,c)·z(m,b,c) = k·z(a,b,c)` with the real
+`k = (r_m r_c + R_m·R_c)(r_m + (1−τ) r_a + τ r_b) > 0`; hence the arguments add modulo 2π, and in ℝ off the plane of the triangle
+(all three in `(0,π)` or all in `(−π,0)`).  The clamp does not commute with this: see `solid_angle_additive_iff`. -/
+namespace MagpyVerif.C13
+open MagpyVerif MagpyVerif.Kern
+
+/-- the model's `solidAngle` (what the driver runs, at ℝ) is the clamped `solidAngleRaw = 2·arg(D + iN)` -/
+theorem solid_angle_is_clamped_raw (R0 R1 R2 : V3 ℝ) :
+    solidAngle R0 R1 R2 (Kern.norm R0) (Kern.norm R1) (Kern.norm R2) =
+      if (62831853 : ℝ) / 10000000 < |solidAngleRaw R0 R1 R2| then 0 else solidAngleRaw R0 R1 R2 :=
+  solidAngle_clamp R0 R1 R2
+
+/-- C13 (solid angle, the algebra): `z(a,m,c) · z(m,b,c) = k · z(a,b,c)` with `k` real — every observer, every `τ` -/
+theorem solid_angle_factorisation (Ra Rb Rc : V3 ℝ) (τ : ℝ) :
+    saZ Ra (saM Ra Rb τ) Rc * saZ (saM Ra Rb τ) Rb Rc = ((saK Ra Rb Rc τ : ℝ) : ℂ) * saZ Ra Rb Rc :=
+  saZ_factor Ra Rb Rc τ
+
+/-- C13 (solid angle, modulo full turns): for an observer on none of the five closed segments `a m`, `m b`, `b c`, `c a`, `m c`
+(`r_u r_v + U·V > 0`: `U`, `V` not antiparallel, neither zero) — in the plane of the triangle or off it — the unclamped solid
+angles of the pieces add up to that of the whole up to a multiple of 4π (the half angles `arg z` up to a multiple of 2π) -/
+theorem solid_angle_additive_mod_2pi (a b c obs : V3 ℝ) (τ : ℝ) (h0 : 0 ≤ τ) (h1 : τ ≤ 1)
+    (ham : 0 < Kern.norm (a - obs) * Kern.norm (a + vs τ (b - a) - obs) + V3.dot (a + vs τ (b - a) - obs) (a - obs))
+    (hmb : 0 < Kern.norm (a + vs τ (b - a) - obs) * Kern.norm (b - obs) + V3.dot (b - obs) (a + vs τ (b - a) - obs))
+    (hbc : 0 < Kern.norm (b - obs) * Kern.norm (c - obs) + V3.dot (c - obs) (b - obs))
+    (hac : 0 < Kern.norm (a - obs) * Kern.norm (c - obs) + V3.dot (c - obs) (a - obs))
+    (hmc : 0 < Kern.norm (a + vs τ (b - a) - obs) * Kern.norm (c - obs) + V3.dot (c - obs) (a + vs τ (b - a) - obs)) :
+    ∃ k : ℤ, solidAngleRaw (a - obs) (a + vs τ (b - a) - obs) (c - obs) + solidAngleRaw (a + vs τ (b - a) - obs) (b - obs) (c - obs) =
+      solidAngleRaw (a - obs) (b - obs) (c - obs) + k * (4 * Real.pi) := by
+  rw [saM_sub] at *
+  exact solidAngleRaw_add_mod _ _ _ τ h0 h1 ham hmb hbc hac hmc
+
+/-- C13 (solid angle, off the plane, before the clamp): the two values `2·atan2(N, D)` of the pieces add up to that of the whole
+exactly, for EVERY observer off the plane of the triangle -/
+theorem solid_angle_raw_additive (a b c obs : V3 ℝ) (τ : ℝ) (h0 : 0 < τ) (h1 : τ < 1)
+    (hN : saN (a - obs) (b - obs) (c - obs) ≠ 0) :
+    solidAngleRaw (a - obs) (a + vs τ (b - a) - obs) (c - obs) + solidAngleRaw (a + vs τ (b - a) - obs) (b - obs) (c - obs) =
+      solidAngleRaw (a - obs) (b - obs) (c - obs) := by
+  rw [saM_sub]
+  exact solidAngleRaw_add _ _ _ τ h0 h1 hN
+
+/-- C13 (solid angle as the code returns it): off the plane of the triangle the named hypothesis `SolidAngleAdditive` holds
+**iff** the code does not clamp the whole triangle's value.  In the clamp band (`2π − |Ω| < 7.2e-9`: the observer within about
+1e-9 triangle sizes of the sheet, over its interior) the whole gives 0 and the pieces do not add up to 0 -/
+theorem solid_angle_additive_iff (a b c obs : V3 ℝ) (τ : ℝ) (h0 : 0 < τ) (h1 : τ < 1)
+    (hN : saN (a - obs) (b - obs) (c - obs) ≠ 0) :
+    SolidAngleAdditive a (a + vs τ (b - a)) b c obs ↔ ¬ SolidAngleClamped (a - obs) (b - obs) (c - obs) :=
+  solidAngleAdditive_iff_of_offplane a b c obs τ h0 h1 hN
+
+/-- C13 (`SolidAngleAdditive` discharged): observer off the plane, whole triangle not clamped -/
+theorem solid_angle_additive (a b c obs : V3 ℝ) (τ : ℝ) (h0 : 0 < τ) (h1 : τ < 1)
+    (hN : saN (a - obs) (b - obs) (c - obs) ≠ 0) (hcl : ¬ SolidAngleClamped (a - obs) (b - obs) (c - obs)) :
+    SolidAngleAdditive a (a + vs τ (b - a)) b c obs :=
+  (solid_angle_additive_iff a b c obs τ h0 h1 hN).mpr hcl
+
+/-- C13 (the clamp breaks subdivision invariance; concrete input): the triangle (0,0,0), (4,0,0), (0,4,0) cut at the midpoint of
+its first edge, observer (1, 1, 1e-10) — off the sheet, above its interior.  The code's solid angle of the whole is clamped to 0
+(`2π − Ω ≈ 4.6e-10 < 7.2e-9`), that of the pieces does not add up to 0: `SolidAngleAdditive` is false.  (On the real code:
+`Triangle.getB` at 1e-9 above the sheet returns the normal component 0 instead of `σ/2`; whole and halves differ by `σ/2` for
+observers above the cut line, see the oracle case `triangle-split` and the report.) -/
+theorem solid_angle_additive_fails_near_sheet :
+    ¬ SolidAngleAdditive (⟨0, 0, 0⟩ : V3 ℝ) (⟨0, 0, 0⟩ + vs (1 / 2) (⟨4, 0, 0⟩ - ⟨0, 0, 0⟩)) ⟨4, 0, 0⟩ ⟨0, 4, 0⟩
+      ⟨1, 1, 1 / 10000000000⟩ := by
+  rw [solid_angle_additive_iff _ _ _ _ (1 / 2) (by norm_num) (by norm_num)
+    (by simp only [saN, V3.dot, V3.cross, V3.sub_x, V3.sub_y, V3.sub_z]; norm_num), not_not]
+  exact witness_clamped
+
+/-- a checkable sufficient condition for "not clamped": `D ≥ 0`, i.e. `|Ω| ≤ π` -/
+theorem solid_angle_not_clamped_of_D_nonneg (R0 R1 R2 : V3 ℝ) (hD : 0 ≤ saD R0 R1 R2) : ¬ SolidAngleClamped R0 R1 R2 :=
+  not_clamped_of_D_nonneg R0 R1 R2 hD
+
+/-- **C13 (Triangle cut through a point of an edge)**, without the named hypothesis: `m = a + τ (b − a)`, `0 < τ < 1`; the observer
+is off the plane of the triangle, the code does not clamp the solid angle of the whole triangle there, and the observer is outside
+the `on_edge` tolerance of the edge `a b`, of its two pieces and of the new edge `m c`.  Then
+`triangle_Bfield(a, m, c) + triangle_Bfield(m, b, c) = triangle_Bfield(a, b, c)`. -/
+theorem triangle_split_additive (a b c pol obs : V3 ℝ) (τ : ℝ) (h0 : 0 < τ) (h1 : τ < 1)
+    (hN : saN (a - obs) (b - obs) (c - obs) ≠ 0) (hcl : ¬ SolidAngleClamped (a - obs) (b - obs) (c - obs))
+    (hoffW : ¬ TriEdgeOnV (a - obs) (b - obs) (b - a))
+    (hoff1 : ¬ TriEdgeOnV (a - obs) (a + vs τ (b - a) - obs) (a + vs τ (b - a) - a))
+    (hoff2 : ¬ TriEdgeOnV (a + vs τ (b - a) - obs) (b - obs) (b - (a + vs τ (b - a))))
+    (hoffM : ¬ TriEdgeOnV (a + vs τ (b - a) - obs) (c - obs) (c - (a + vs τ (b - a)))) :
+    triangleB a (a + vs τ (b - a)) c pol obs + triangleB (a + vs τ (b - a)) b c pol obs = triangleB a b c pol obs :=
+  triangleB_split_offplane a b c pol obs τ h0 h1 hN hcl hoffW hoff1 hoff2 hoffM
+
+-- non-vacuity: the triangle (0,0,0), (2,0,0), (0,1,0) cut at the midpoint of its first edge, observer (−1,−1,1) off the plane
+-- (N = 2, all scalar products positive so D > 0)
+example (pol : V3 ℝ) :
+    triangleB (⟨0, 0, 0⟩ : V3 ℝ) (⟨0, 0, 0⟩ + vs (1 / 2) (⟨2, 0, 0⟩ - ⟨0, 0, 0⟩)) ⟨0, 1, 0⟩ pol ⟨-1, -1, 1⟩ +
+      triangleB ((⟨0, 0, 0⟩ : V3 ℝ) + vs (1 / 2) (⟨2, 0, 0⟩ - ⟨0, 0, 0⟩)) ⟨2, 0, 0⟩ ⟨0, 1, 0⟩ pol ⟨-1, -1, 1⟩ =
+    triangleB (⟨0, 0, 0⟩ : V3 ℝ) ⟨2, 0, 0⟩ ⟨0, 1, 0⟩ pol ⟨-1, -1, 1⟩ := by
+  apply triangle_split_additive _ _ _ pol _ (1 / 2) (by norm_num) (by norm_num)
+  · simp [saN, V3.dot, V3.cross]; norm_num
+  · apply solid_angle_not_clamped_of_D_nonneg
+    have h1 := norm_nonneg' ((⟨0, 0, 0⟩ : V3 ℝ) - ⟨-1, -1, 1⟩)
+    have h2 := norm_nonneg' ((⟨2, 0, 0⟩ : V3 ℝ) - ⟨-1, -1, 1⟩)
+    have h3 := norm_nonneg' ((⟨0, 1, 0⟩ : V3 ℝ) - ⟨-1, -1, 1⟩)
+    simp only [saD, V3.dot, V3.sub_x, V3.sub_y, V3.sub_z]
+    norm_num
+    positivity
+  · simp only [TriEdgeOnV, triEdgeOn, V3.dot, V3.cross, V3.sub_x, V3.sub_y, V3.sub_z, V3.add_x, V3.add_y, V3.add_z, vs]; norm_num
+  · simp only [TriEdgeOnV, triEdgeOn, V3.dot, V3.cross, V3.sub_x, V3.sub_y, V3.sub_z, V3.add_x, V3.add_y, V3.add_z, vs]; norm_num
+  · simp only [TriEdgeOnV, triEdgeOn, V3.dot, V3.cross, V3.sub_x, V3.sub_y, V3.sub_z, V3.add_x, V3.add_y, V3.add_z, vs]; norm_num
+  · simp only [TriEdgeOnV, triEdgeOn, V3.dot, V3.cross, V3.sub_x, V3.sub_y, V3.sub_z, V3.add_x, V3.add_y, V3.add_z, vs]; norm_num
+
+/-- C13 (inside test of a Tetrahedron cut through a point of an edge): for a positively oriented `(a, b, c, d)` and
+`m = a + τ (b − a)`, `point_inside` of the whole is the disjunction of the parts' tests, and an observer off the cut plane `m c d`
+is inside at most one part -/
+theorem tetra_inside_edge_split (a b c d x : V3 ℝ) (τ : ℝ) (h0 : 0 < τ) (h1 : τ < 1)
+    (hΔ : 0 < det3 (b - a) (c - a) (d - a)) :
+    tetraInside a b c d x = (tetraInside a (a + vs τ (b - a)) c d x || tetraInside (a + vs τ (b - a)) b c d x) ∧
+    (det3 (x - (a + vs τ (b - a))) (c - (a + vs τ (b - a))) (d - (a + vs τ (b - a))) ≠ 0 →
+      ¬ (tetraInside a (a + vs τ (b - a)) c d x = true ∧ tetraInside (a + vs τ (b - a)) b c d x = true)) :=
+  tetraInside_edge_split a b c d x τ h0 h1 hΔ
+
+/-- **C13 (Tetrahedron cut through a point of one edge into two Tetrahedra)**: `BHJM_magnet_tetrahedron` of `(a, m, c, d)` plus
+that of `(m, b, c, d)`, `m = a + τ (b − a)`, is that of `(a, b, c, d)` — all four fields B, H, J, M, same polarization — for a
+positively oriented `(a, b, c, d)` and an observer (inside or outside) that is
+  * off the planes of the two faces that are cut, `a c b` and `a b d`, at which the code does not clamp their solid angles,
+  * off the cut plane `m c d`,
+  * outside the `on_edge` tolerance of the edge `a b`, of its pieces `a m`, `m b` and of the three edges of the cut triangle.
+The faces `a c b` and `a b d` are split by `triangle_split_additive`, the cut triangle is run once in each orientation and cancels
+(`triangle_field_flip`), the faces `b c d` and `a d c` are common, and the inside tests are `tetra_inside_edge_split`. -/
+theorem tetra_edge_split_additive (f : Field) (a b c d pol x : V3 ℝ) (τ : ℝ) (h0 : 0 < τ) (h1 : τ < 1)
+    (hΔ : 0 < det3 (b - a) (c - a) (d - a))
+    (hN1 : saN (b - x) (a - x) (c - x) ≠ 0) (hcl1 : ¬ SolidAngleClamped (b - x) (a - x) (c - x))
+    (hN2 : saN (a - x) (b - x) (d - x) ≠ 0) (hcl2 : ¬ SolidAngleClamped (a - x) (b - x) (d - x))
+    (hcut : det3 (x - (a + vs τ (b - a))) (c - (a + vs τ (b - a))) (d - (a + vs τ (b - a))) ≠ 0)
+    (hab : ¬ TriEdgeOnV (a - x) (b - x) (b - a))
+    (ham : ¬ TriEdgeOnV (a - x) (a + vs τ (b - a) - x) (a + vs τ (b - a) - a))
+    (hmb : ¬ TriEdgeOnV (a + vs τ (b - a) - x) (b - x) (b - (a + vs τ (b - a))))
+    (hwall : TriOffEdges (a + vs τ (b - a)) c d x) :
+    bhjmTetra f a (a + vs τ (b - a)) c d pol x + bhjmTetra f (a + vs τ (b - a)) b c d pol x = bhjmTetra f a b c d pol x :=
+  tetra_edge_split f a b c d pol x τ h0 h1 hΔ hN1 hcl1 hN2 hcl2 hcut hab ham hmb hwall
+
+-- non-vacuity: the tetrahedron (0,0,0), (2,0,0), (0,1,0), (0,0,1) cut through the midpoint (1,0,0) of its first edge, observer
+-- (−1,−1,−1) (outside; all scalar products of the corner directions positive, so every D > 0)
+example (f : Field) (pol : V3 ℝ) :
+    bhjmTetra f (⟨0, 0, 0⟩ : V3 ℝ) (⟨0, 0, 0⟩ + vs (1 / 2) (⟨2, 0, 0⟩ - ⟨0, 0, 0⟩)) ⟨0, 1, 0⟩ ⟨0, 0, 1⟩ pol ⟨-1, -1, -1⟩ +
+      bhjmTetra f ((⟨0, 0, 0⟩ : V3 ℝ) + vs (1 / 2) (⟨2, 0, 0⟩ - ⟨0, 0, 0⟩)) ⟨2, 0, 0⟩ ⟨0, 1, 0⟩ ⟨0, 0, 1⟩ pol ⟨-1, -1, -1⟩ =
+    bhjmTetra f (⟨0, 0, 0⟩ : V3 ℝ) ⟨2, 0, 0⟩ ⟨0, 1, 0⟩ ⟨0, 0, 1⟩ pol ⟨-1, -1, -1⟩ := by
+  have ha := norm_nonneg' ((⟨0, 0, 0⟩ : V3 ℝ) - ⟨-1, -1, -1⟩)
+  have hb := norm_nonneg' ((⟨2, 0, 0⟩ : V3 ℝ) - ⟨-1, -1, -1⟩)
+  have hc := norm_nonneg' ((⟨0, 1, 0⟩ : V3 ℝ) - ⟨-1, -1, -1⟩)
+  have hd := norm_nonneg' ((⟨0, 0, 1⟩ : V3 ℝ) - ⟨-1, -1, -1⟩)
+  apply tetra_edge_split_additive f _ _ _ _ pol _ (1 / 2) (by norm_num) (by norm_num)
+  · simp [det3]
+  · simp [saN, V3.dot, V3.cross]; norm_num
+  · apply solid_angle_not_clamped_of_D_nonneg
+    simp only [saD, V3.dot, V3.sub_x, V3.sub_y, V3.sub_z]
+    norm_num
+    positivity
+  · simp [saN, V3.dot, V3.cross]; norm_num
+  · apply solid_angle_not_clamped_of_D_nonneg
+    simp only [saD, V3.dot, V3.sub_x, V3.sub_y, V3.sub_z]
+    norm_num
+    positivity
+  · simp [det3, vs]; norm_num
+  · simp only [TriEdgeOnV, triEdgeOn, V3.dot, V3.cross, V3.sub_x, V3.sub_y, V3.sub_z, V3.add_x, V3.add_y, V3.add_z, vs]; norm_num
+  · simp only [TriEdgeOnV, triEdgeOn, V3.dot, V3.cross, V3.sub_x, V3.sub_y, V3.sub_z, V3.add_x, V3.add_y, V3.add_z, vs]; norm_num
+  · simp only [TriEdgeOnV, triEdgeOn, V3.dot, V3.cross, V3.sub_x, V3.sub_y, V3.sub_z, V3.add_x, V3.add_y, V3.add_z, vs]; norm_num
+  · refine ⟨?_, ?_, ?_⟩ <;>
+      simp only [TriEdgeOnV, triEdgeOn, V3.dot, V3.cross, V3.sub_x, V3.sub_y, V3.sub_z, V3.add_x, V3.add_y, V3.add_z, vs] <;> norm_num
 
 end MagpyVerif.C13
